@@ -108,11 +108,11 @@ def run(prop, tier, replay):
     # universes of the pure half: (file_len, max_ranges, class, blocks)
     if quick:
         universes = [dict(L=6, n=3, cls="sorted", blocks=[0, 2, 4], parts=1),
-                     dict(L=12, n=2, cls="all", blocks=[0, 2, 4, 64], parts=1)]
+                     dict(L=12, n=2, cls="all", blocks=[0, 2, 4], parts=1)]
     else:
         universes = [dict(L=12, n=3, cls="sorted", blocks=[0, 2, 4], parts=6),
                      dict(L=6, n=4, cls="sorted", blocks=[0, 2, 4], parts=3),
-                     dict(L=8, n=3, cls="all", blocks=[0, 2, 4], parts=4),
+                     dict(L=6, n=3, cls="all", blocks=[0, 2, 4], parts=1),
                      dict(L=12, n=2, cls="all", blocks=[0, 2, 4, 64], parts=1)]
     maxiops = [3, 5, 0]           # 0 = default (16 MiB)
     chunks = [4, 0]               # 0 = default (8 MiB)
@@ -122,20 +122,21 @@ def run(prop, tier, replay):
     caps = [1, 2]
     budgets = [3, 100] if quick else [1, 3, 100]
     qconfigs = [dict(name=sn, codes=codes, caps=caps, budgets=budgets) for sn, codes in sets.items()]
-    max_scn = 400 if quick else 5000     # schedules replayed per (request set, capacity, budget); seeded sample beyond
+    max_scn = 250 if quick else 5000     # schedules replayed per (request set, capacity, budget); seeded sample beyond
 
     # 1. model-check the design ------------------------------------------------------------------
     def mc_ops(u):
-        c = cfg("SPECIFICATION Spec", "INVARIANTS TypeOK OpsTheorem OpsReadsWellFormed AsBuiltFailsOnlyInNamedClasses\n"
+        c = cfg("SPECIFICATION Spec", "INVARIANTS TypeOK OpsTheorem OpsReadsWellFormed\n"
                 "CHECK_DEADLOCK FALSE\n", mode="ops", filelen=u["L"], maxranges=u["n"], cls=u["cls"],
                 blocks=tset(u["blocks"]), maxiops=tset([m or BIG_IOP for m in maxiops]), chunks=tset(chunks))
-        r = vlib.tlc_mc(f"{prop}-ops-{u['L']}-{u['n']}-{u['cls']}", "IoSched", c, workers=workers_each, timeout=3000, xmx="6g")
+        big = n_lists(u["L"], u["n"], "sorted" if u["cls"] == "sorted" else "all") > 100000
+        r = vlib.tlc_mc(f"{prop}-ops-{u['L']}-{u['n']}-{u['cls']}", "IoSched", c, workers=8 if big else 3, timeout=3000, xmx="6g")
         return ("ops", u, c, r)
 
     def mc_queue(q):
         c = cfg("SPECIFICATION Spec", f"INVARIANTS {QUEUE_INVS} NoStuck\nPROPERTIES Live\nCHECK_DEADLOCK TRUE\n",
                 caps=tset(q["caps"]), budgets=tset(q["budgets"]), codes=tset(q["codes"]))
-        r = vlib.tlc_mc(f"{prop}-q-{q['name']}", "IoSched", c, workers=2, timeout=3000, xmx="3g")
+        r = vlib.tlc_mc(f"{prop}-q-{q['name']}", "IoSched", c, workers=1, timeout=3000, xmx="3g")
         return ("queue", q, c, r)
 
     def mc_asbuilt():
@@ -144,6 +145,15 @@ def run(prop, tier, replay):
                 filelen=6, maxranges=2, cls="sorted", blocks=tset([0, 2]), maxiops=tset([3, BIG_IOP]), chunks=tset([4, 0]))
         r = vlib.tlc_mc(f"{prop}-asbuilt", "IoSched", c, workers=1, timeout=600, xmx="2g", coverage=False, expect_violation=True)
         return ("asbuilt", u, c, r)
+
+    def mc_classes():
+        # what the as-built transcription gets wrong is confined to the named classes
+        u = dict(L=6, n=2, cls="all", blocks=[0, 2, 4])
+        c = cfg("SPECIFICATION Spec", "INVARIANTS AsBuiltFailsOnlyInNamedClasses\nCHECK_DEADLOCK FALSE\n", mode="ops",
+                filelen=6, maxranges=2 if quick else 3, cls="all", blocks=tset([0, 2, 4]),
+                maxiops=tset([3, 5, BIG_IOP]), chunks=tset([4, 0]))
+        r = vlib.tlc_mc(f"{prop}-classes", "IoSched", c, workers=2, timeout=3000, xmx="3g", coverage=False)
+        return ("classes", u, c, r)
 
     def mc_abandon():
         # environment outside the property (a consumer drops a request future): expected to break NoStuck
@@ -167,9 +177,11 @@ def run(prop, tier, replay):
     states = trans = 0
     mc_info = []
     schedules = {}
-    jobs = [lambda u=u: mc_ops(u) for u in universes] + [mc_asbuilt, mc_abandon]
+    jobs = [lambda u=u: mc_ops(u) for u in universes] + [mc_asbuilt, mc_classes, mc_abandon]
     jobs += [lambda q=q: mc_queue(q) for q in qconfigs] + [lambda q=q: gen(q) for q in qconfigs]
-    with cf.ThreadPoolExecutor(max_workers=6) as ex:
+    if replay:
+        jobs = []       # --replay re-runs one stored case on the implementation only
+    with cf.ThreadPoolExecutor(max_workers=5) as ex:
         results = list(ex.map(lambda j: j(), jobs))
     abandon_model = None
     for kind, what, c, r in results:
@@ -184,6 +196,13 @@ def run(prop, tier, replay):
             continue
         if kind == "abandon":
             abandon_model = r["violated"]
+            continue
+        if kind == "classes":
+            if r["violated"]:
+                out.report({"spec": "IoSched", "mode": "ops", "invariant": r["violated"]},
+                           f"the as-built transcription fails outside the named classes (see {r['out']})", {"cfg": c})
+            states += r.get("distinct", 0)
+            trans += r.get("generated", 0)
             continue
         if r["violated"]:
             out.report({"spec": "IoSched", "mode": kind, "invariant": r["violated"]},
@@ -289,7 +308,7 @@ def run(prop, tier, replay):
     else:
         tjobs = [lambda u=u, m=m, p=p: pure_job(u, m, p) for u in universes for m in maxiops for p in range(u["parts"])]
         tjobs += [lambda q=q: conc_job(q) for q in qconfigs] + [abandon_job]
-        with cf.ThreadPoolExecutor(max_workers=8) as ex:
+        with cf.ThreadPoolExecutor(max_workers=6) as ex:
             tjobs_results = list(ex.map(lambda j: j(), tjobs))
 
     # 5. classify --------------------------------------------------------------------------------
